@@ -231,7 +231,31 @@ class Comprehend(_Bodies):
             return v.func.id
         return None
 
+    def _sink(self, body):
+        """`x = []` (or {} / set() / 0) separated from the loop that fills x by simple statements that do not mention x is moved down
+        to stand directly before that loop"""
+        body = list(body)
+        i = 0
+        while i < len(body):
+            st = body[i]
+            if isinstance(st, ast.Assign) and len(st.targets) == 1 and isinstance(st.targets[0], ast.Name) and (
+                    self._empty(st.value) or (isinstance(st.value, ast.Constant) and st.value.value == 0 and type(st.value.value) is int)):
+                name = st.targets[0].id
+                mentions = lambda s: any(isinstance(y, ast.Name) and y.id == name for y in ast.walk(s))
+                j = i + 1
+                while j < len(body) and isinstance(body[j], (ast.Assign, ast.AnnAssign, ast.AugAssign, ast.Expr, ast.Assert)) and not mentions(body[j]):
+                    j += 1
+                is_init = lambda s: isinstance(s, ast.Assign) and len(s.targets) == 1 and isinstance(s.targets[0], ast.Name) and (
+                    self._empty(s.value) or (isinstance(s.value, ast.Constant) and s.value.value == 0 and type(s.value.value) is int))
+                if j > i + 1 and j < len(body) and isinstance(body[j], ast.For) and mentions(body[j]) and not mentions(body[j].iter) \
+                        and not all(is_init(s) for s in body[i + 1:j]):
+                    body.insert(j - 1, body.pop(i))
+                    continue        # the statement now at i is examined next
+            i += 1
+        return body
+
     def process(self, body):
+        body = self._sink(body)
         out = []
         i = 0
         while i < len(body):
